@@ -186,6 +186,9 @@ class SgzCropper(SgzReader):
 
             self.read_variant_headers()
             for k in self.stored_header_keys:
+                if self.hw_info.table[k][1] != k:
+                    # A header word duplicating another one shares that word's array
+                    continue
                 header_array = self.variant_headers[k].reshape((self.n_ilines, self.n_xlines)).astype(np.int32)
                 cropped_header_array = header_array[iline_index_range[0]:iline_index_range[1],
                                                     xline_index_range[0]:xline_index_range[1]]
